@@ -242,9 +242,9 @@ def r5_external_and_semicolons(ctx, rep):
 
 
 RULES = [
-    RuleSpec("C08.R5", r5_external_and_semicolons, "EXTERNAL handling order; exact `;` splitting (shared with C02.R3)", floor=5),
-    RuleSpec("C08.R1", r1_not_scanned, "statements that must not be scanned", floor=25),
-    RuleSpec("C08.R2", r2_filter_dominance, "filter dominance and de-duplication", floor=7),
-    RuleSpec("C08.R3", r3_keyword_table, "keyword table", floor=35),
-    RuleSpec("C08.R4", r4_call_forms, "call statement forms are recognised", floor=8),
+    RuleSpec("C08.R5", r5_external_and_semicolons, "EXTERNAL handling order; exact `;` splitting (shared with C02.R3)", floor=2),
+    RuleSpec("C08.R1", r1_not_scanned, "statements that must not be scanned", floor=15),
+    RuleSpec("C08.R2", r2_filter_dominance, "filter dominance and de-duplication", floor=3),
+    RuleSpec("C08.R3", r3_keyword_table, "keyword table", floor=21),
+    RuleSpec("C08.R4", r4_call_forms, "call statement forms are recognised", floor=4),
 ]
